@@ -14,8 +14,11 @@
               nested at the end and no user byte that can be `<` or `>` reaches the output
   sections:*  extract_sections (docgen) on the subcommand grammars of the corpus: every command level
               reachable through subcommands is visited exactly once, with its own path
-Markdown cosmetics and whole-document assembly (render_manpage / render_markdown) are outside the
-claim; the item lists per section are C12's obligation.
+  doc:*       whole documents: collect_html + Doc::render_markdown / render_html and render_manpage executed
+              from MIR on corpus grammars; every command level has exactly one section, each section
+              mentions the visible named items and commands of its level, hidden items nowhere; the text
+              must equal the native build's byte for byte
+Markdown cosmetics are outside the claim.
 """
 import itertools
 import re
@@ -388,6 +391,293 @@ def run_sections_job(job, build):
 
 
 # ------------------------------------------------------------------------------------------------
+# whole documents
+
+DOC_GRAMMARS = ["g1", "c1", "c2", "c3", "c7", "c9", "hd", "h2", "k1", "k6", "o1", "hr", "un"]  # no env-backed grammar: help shows the variable's current value
+DOC_FORMATS = ("md", "html", "man")
+
+
+def doc_plain(fmt, text):
+    """markup removed; returns the list of lines"""
+    if fmt == "html":
+        text = re.sub(r"<br\s*/?>", "\n", text)
+        text = re.sub(r"</(p|div|dt|dd|dl|h\d|li|ul)>", "\n", text)
+        text = re.sub(r"<[^>]*>", "", text)
+        for a, b in (("&lt;", "<"), ("&gt;", ">"), ("&mdash;", "-"), ("&amp;", "&")):
+            text = text.replace(a, b)
+    elif fmt == "md":
+        text = re.sub(r"\\([\[\]])", r"\1", text)
+        text = text.replace("**", "").replace("`", "")
+        text = re.sub(r"(?<![A-Za-z0-9])_|_(?![A-Za-z0-9])", "", text)
+        text = text.replace("&mdash;", "-")
+    else:
+        text = re.sub(r"\\f[BIRP]", "", text)
+        text = text.replace("\\-", "-").replace("\\ ", " ").replace("\\&", "").replace("\\*(Aq", "'")
+    return [ln.rstrip() for ln in text.split("\n")]
+
+
+def doc_sections(fmt, lines, paths):
+    """{path: [lines]} - a section starts at the header line that names the path"""
+    heads = {}
+    want = {" ".join(p): p for p in paths}
+    for i, ln in enumerate(lines):
+        if fmt == "man":
+            if ln.startswith(".SH "):
+                t = ln[4:].strip()
+                for k, p in want.items():
+                    if t == k.upper():
+                        heads.setdefault(p, []).append(i)
+        else:
+            m = re.match(r"^\s*#+ (.*)$", ln)
+            if m and m.group(1).strip() in want:
+                heads.setdefault(want[m.group(1).strip()], []).append(i)
+    return heads
+
+
+def doc_oracle(fmt, text, g):
+    """problems found in one rendered document of grammar g"""
+    problems = []
+    lines = doc_plain(fmt, text)
+    if g.level is not None:
+        paths = []
+        spec_paths(g.level, ["app"], paths)
+    else:
+        paths = [("app",)]
+    multi = len(paths) > 1
+    if multi:
+        heads = doc_sections(fmt, lines, paths)
+        for p in paths:
+            n = len(heads.get(p, []))
+            if n != 1:
+                problems.append("command level %r has %d section headers" % (" ".join(p), n))
+        order = sorted((v[0], p) for p, v in heads.items() if v)
+        bounds = {}
+        for k, (start, p) in enumerate(order):
+            end = order[k + 1][0] if k + 1 < len(order) else len(lines)
+            bounds[p] = (start, end)
+    else:
+        bounds = {paths[0]: (0, len(lines))}
+
+    def level_of(path):
+        lv = g.level
+        for nm in path[1:]:
+            for f in lv.fields:
+                if isinstance(f, G.Cmds):
+                    for c in f.cmds:
+                        if c.names[0] == nm:
+                            lv = c.level
+        return lv
+    hidden_names = []
+    for p in paths:
+        if p not in bounds:
+            continue
+        a, b = bounds[p]
+        body = "\n".join(lines[a:b])
+        toks = set(re.split(r"[\s,=\[\]()|]+", body))
+        if g.level is None:
+            # names-only grammars (adjacent groups): an undocumented member of an adjacent group is shown
+            # in the group's usage line only, under its short name - either spelling counts
+            if len(g.all_shorts) == len(g.all_longs):
+                named = [("--" + l, "-" + chr(c)) for c, l in zip(g.all_shorts, g.all_longs)]
+            else:
+                named = [("--" + l) for l in g.all_longs]
+            cmds = list(g.cmd_names)
+        else:
+            lv = level_of(p)
+            named = []
+            from .C10 import level_named
+            for f in level_named(lv):
+                nm = ("--" + f.longs[0]) if f.longs else ("-" + chr(f.shorts[0]))
+                if getattr(f, "hidden", False):
+                    hidden_names.append(nm)
+                else:
+                    named.append(nm)
+            cmds = [c.names[0] for f in lv.fields if isinstance(f, G.Cmds) for c in f.cmds]
+        for nm in named:
+            alts = nm if type(nm) is tuple else (nm,)
+            if not any(a in toks for a in alts):
+                problems.append("section %r does not mention %s" % (" ".join(p), alts[0]))
+        for c in cmds:
+            if c not in toks:
+                problems.append("section %r does not mention the command %s" % (" ".join(p), c))
+    alltoks = set(re.split(r"[\s,=\[\]()|]+", "\n".join(lines)))
+    for nm in hidden_names:
+        if nm in alltoks:
+            problems.append("hidden item %s is mentioned" % nm)
+    return problems
+
+
+def run_doc_job(job, build):
+    """collect_html + Doc::render_markdown / render_html and OptionParser::render_manpage executed
+    from the full-feature MIR on a corpus grammar (the builder runs from MIR too); the text is read by
+    doc_oracle and compared byte for byte with the natively rendered document"""
+    from . import C12
+    from .framework import Replayer
+    prog = tok.load_program(build, "full")
+    models = C12.help_models()
+    models.pop("Doc::to_completion", None)
+    models.update(TM.TEXT_MODELS)
+    models.update(FM.FMT_MODELS)
+    ex = tok.new_exec(prog, models=models, step_budget=8000000)
+    TM.install_hooks(ex)
+    ex.debug_repr = C12.stable_repr
+    g = CORPUS[job["grammar"]]
+    fmt = job["fmt"]
+    out = {"stats": None, "cex": [], "inconclusive": [], "samples": [], "nontrivial": 1, "obligations": 0}
+
+    def harness(ex):
+        L = ex.prog.layout
+        p = ex.call(parse_callee(g.builder), [])
+        if fmt == "man":
+            sec = Adt("Section", L.variant_index("Section", "General"), ())
+            return ex.call(parse_callee("OptionParser::render_manpage"), [Ref(Cell(p, "p"), ()), "app", sec, NONE, NONE, NONE])
+        inner = p.fields[L.adts["OptionParser"]["fields"].index("inner")]
+        info = p.fields[L.adts["OptionParser"]["fields"].index("info")]
+        meta = ex.call(parse_callee("<P as Parser<T>>::meta"), [Ref(Cell(inner, "inner"), ())])
+        doc = ex.call(parse_callee("buffer::html::collect_html"), ["app", Ref(Cell(meta, "meta"), ()), Ref(Cell(info, "info"), ())])
+        if fmt == "md":
+            return ex.call(parse_callee("Doc::render_markdown"), [Ref(Cell(doc, "doc"), ()), True])
+        return ex.call(parse_callee("Doc::render_html"), [Ref(Cell(doc, "doc"), ()), True, False])
+
+    texts = []
+
+    def on_path(ex, r):
+        out["obligations"] += 1
+        if r.kind != "ok":
+            out["cex"].append({"kind": "doc-panics", "grammar": g.name, "fmt": fmt, "why": str(r.info)})
+            return
+        v = rda(r.value)
+        if type(v) is BStr:
+            if not all(isinstance(b, int) for b in v.b):
+                out["inconclusive"].append("document text is not concrete")
+                return
+            v = bytes(v.b).decode("utf-8", "replace")
+        texts.append(v)
+    try:
+        ex.explore(harness, on_path)
+    except (Unmodelled, BoundExceeded, ExecError) as e:
+        out["inconclusive"].append("%s %s [%s]" % (type(e).__name__, e, "/".join(getattr(e, "stack", None) or ex.callstack[-3:])))
+    out["stats"] = dict(ex.stats)
+    out["models_used"] = dict(ex.model_hits)
+    out["fn_hits"] = dict(ex.fn_hits)
+    if len(texts) != 1:
+        if not out["inconclusive"] and not out["cex"]:
+            out["inconclusive"].append("%d paths for a fixed definition" % len(texts))
+        return out
+    text = texts[0]
+    import ast
+    (cls, pay), = Replayer(build["sets"]["full"]["replay"]).run([("doc:%s:%s" % (fmt, g.name), [], {})])
+    try:
+        native = ast.literal_eval(pay) if cls == "doc" else None
+    except Exception:  # noqa: BLE001
+        native = None
+    out["validated"] = 1
+    out["validated_agree"] = int(native == text)
+    if native != text:
+        out["inconclusive"].append("ENCODING-MISMATCH %s document of %s: MIR execution and the native build differ (native class %s)" % (fmt, g.name, cls))
+        return out
+    problems = doc_oracle(fmt, text, g)
+    if problems:
+        out["cex"].append({"kind": "doc-incomplete", "grammar": g.name, "fmt": fmt, "why": "; ".join(problems[:4]), "text": text[:3000],
+                           "native_same_text": True})
+    else:
+        out["samples"].append({"grammar": g.name, "format": fmt, "bytes": len(text), "first_lines": [ln for ln in doc_plain(fmt, text) if ln.strip()][:6]})
+    return out
+
+
+def run_gendoc_job(job, build):
+    """documents of *solver-chosen* definitions: C12's Meta-tree generator with nested command levels;
+    collect_html + render_markdown / render_html from MIR; every generated command level has exactly
+    one section, the section mentions the long names / positionals-with-help / command names of its
+    level, hidden names are mentioned nowhere"""
+    from . import C12
+    prog = tok.load_program(build, "full")
+    models = C12.help_models()
+    models.pop("Doc::to_completion", None)
+    models.update(TM.TEXT_MODELS)
+    models.update(FM.FMT_MODELS)
+    ex = tok.new_exec(prog, models=models, step_budget=8000000)
+    TM.install_hooks(ex)
+    ex.debug_repr = C12.stable_repr
+    fmt = job["fmt"]
+    out = {"stats": None, "cex": [], "inconclusive": [], "samples": [], "nontrivial": 0, "obligations": 0}
+
+    def harness(ex):
+        ex.info_default = ex.call(parse_callee("<Info as Default>::default"), [])
+        g = C12.Gen(ex, job["budget"])
+        g.nest = job["nest"]
+        g.force = list(job["force"])
+        meta = g.tree(job["depth"])
+        doc = ex.call(parse_callee("buffer::html::collect_html"), ["app", Ref(Cell(meta, "meta"), ()), Ref(Cell(ex.info_default, "info"), ())])
+        if fmt == "md":
+            text = ex.call(parse_callee("Doc::render_markdown"), [Ref(Cell(doc, "doc"), ()), True])
+        else:
+            text = ex.call(parse_callee("Doc::render_html"), [Ref(Cell(doc, "doc"), ()), True, False])
+        return (g, text, meta)
+
+    def on_path(ex, r):
+        out["obligations"] += 1
+        if ex.pc:
+            out["nontrivial"] += 1
+        if r.kind != "ok":
+            if "bpaf usage BUG" in str(r.info):
+                # the generated definition breaks the documented positional invariant (what check_invariants
+                # rejects): outside the quantifier of the property
+                out["outside"] = out.get("outside", 0) + 1
+                return
+            out["cex"].append({"kind": "doc-panics", "grammar": "generated", "fmt": fmt, "why": "%s (job %s)" % (r.info, job["id"])})
+            return
+        g, text, meta = r.value
+        text = rda(text)
+        if type(text) is BStr:
+            text = bytes(text.b).decode("utf-8", "replace")
+        if not isinstance(text, str):
+            out["inconclusive"].append("document text is not concrete")
+            return
+        lines = doc_plain(fmt, text)
+        paths = [("app",) + p for p in g.levels]
+        problems = []
+        if len(paths) > 1:
+            heads = doc_sections(fmt, lines, paths)
+            for p in paths:
+                n = len(heads.get(p, []))
+                if n != 1:
+                    problems.append("command level %r has %d section headers" % (" ".join(p), n))
+            order = sorted((v[0], p) for p, v in heads.items() if v)
+            bounds = {p: (st, order[k + 1][0] if k + 1 < len(order) else len(lines)) for k, (st, p) in enumerate(order)}
+        else:
+            bounds = {paths[0]: (0, len(lines))}
+        alltoks = set(re.split(r"[\s,=\[\]()|]+", "\n".join(lines)))
+        for p, lv in g.levels.items():
+            full = ("app",) + p
+            if full not in bounds:
+                continue
+            a, b = bounds[full]
+            toks = set(re.split(r"[\s,=\[\]()|]+", "\n".join(lines[a:b])))
+            for kind, name, mv, hlp, adj in lv["visible"]:
+                if adj and not hlp:
+                    continue  # undocumented member of an adjacent group: usage line of the group only (C12)
+                if name not in toks:
+                    problems.append("section %r does not mention %s" % (" ".join(full), name))
+            for name in lv["hidden"]:
+                if name in alltoks:
+                    problems.append("hidden item %s is mentioned" % name)
+        if problems:
+            out["cex"].append({"kind": "doc-incomplete", "grammar": "generated", "fmt": fmt, "why": "; ".join(problems[:4]) + " (tree %s)" % C12.stable_repr(meta)[:500],
+                               "text": text[:3000], "native_same_text": False})
+        elif len(out["samples"]) < 1 and len(g.levels) > 1:
+            out["samples"].append({"generated_levels": [" ".join(("app",) + p) for p in g.levels], "format": fmt})
+    try:
+        ex.explore(harness, on_path, max_paths=400000)
+    except (Unmodelled, BoundExceeded, ExecError) as e:
+        out["inconclusive"].append("%s %s [%s]" % (type(e).__name__, e, "/".join(getattr(e, "stack", None) or ex.callstack[-3:])))
+    out["stats"] = dict(ex.stats)
+    out["models_used"] = dict(ex.model_hits)
+    out["fn_hits"] = dict(ex.fn_hits)
+    return out
+
+
+# ------------------------------------------------------------------------------------------------
 
 def make_jobs(tier, seed, build):
     jobs = []
@@ -425,6 +715,17 @@ def make_jobs(tier, seed, build):
                     jobs.append({"id": "html:%s:prefix%r:%d:%d" % (tname, prefix, n, int(full)), "kind": "html", "template": tname, "lens": [n], "full": full, "prefix": [0, prefix]})
     for gname in ("c1", "c2", "c3", "c4", "h2", "g1", "c7", "c8", "c9"):
         jobs.append({"id": "sections:%s" % gname, "kind": "sections", "grammar": gname})
+    for gname in DOC_GRAMMARS:
+        for fmt in DOC_FORMATS:
+            jobs.append({"id": "doc:%s:%s" % (fmt, gname), "kind": "doc", "grammar": gname, "fmt": fmt})
+    nsh = 12
+    for fmt in ("md", "html"):
+        for depth, budget, nest in ((1, 1, 1), (2, 1, 1)) if tier == "quick" else ((1, 1, 1), (2, 1, 1), (2, 2, 1)):
+            for a in range(nsh):
+                for b in range(nsh if depth > 1 else 1):
+                    force = [a, b] if depth > 1 else [a]
+                    jobs.append({"id": "gendoc:%s:%d:%d:%s" % (fmt, depth, budget, "-".join(map(str, force))), "kind": "gendoc", "fmt": fmt, "depth": depth,
+                                 "budget": budget, "nest": nest, "force": force, "weight": depth * budget})
     return jobs
 
 
@@ -436,6 +737,10 @@ def run_job(job, build):
         return run_style_job(job, build)
     if k == "html":
         return run_html_job(job, build)
+    if k == "doc":
+        return run_doc_job(job, build)
+    if k == "gendoc":
+        return run_gendoc_job(job, build)
     return run_sections_job(job, build)
 
 
@@ -465,6 +770,8 @@ def finish(results, jobs, build, out, tier, seed, wall):
                               "roff escape(): %s; fragments %s, user text %r => %r" % (c["why"], c["frags"], c["user_text"], c["output"]), c)
             elif c["kind"] == "html-malformed":
                 out.violation("html:%s:%s" % (c["template"], c["why"][:50]), "render_html(%s, full=%s) with text %r: %s; output %r" % (c["template"], c["full"], c["user_text"], c["why"], c["output"]), c)
+            elif c["kind"] == "doc-incomplete":
+                out.violation("doc:%s:%s:%s" % (c["fmt"], c["grammar"], r["job"]), "%s document of grammar %s%s: %s" % (c["fmt"], c["grammar"], " (identical natively)" if c.get("native_same_text") else "", c["why"]), c)
             elif c["kind"] == "sections-differ":
                 out.violation("sections:%s" % c["grammar"], "extract_sections on %s visits %r, the command tree is %r" % (c["grammar"], c["got"], c["want"]), c)
             else:
@@ -476,7 +783,6 @@ def finish(results, jobs, build, out, tier, seed, wall):
         "samples": samples,
         "states": max(st["paths"], 1),
         "transitions": max(st["decisions"], 1),
-        "traces_validated_against_impl": 0,
         "exhaustive": not out.inconclusive,
         "paths": st["paths"],
         "queries": {"total": st["queries"], "sat": st["sat"], "unsat": st["unsat"], "unknown": st["unknown"]},
@@ -484,8 +790,10 @@ def finish(results, jobs, build, out, tier, seed, wall):
         "obligations": sum(r.get("obligations", 0) for r in results),
         "bounds": {"roff": "1..=%d fragments (5 of bpaf's own, 3 user modes), user fragments of 1..=%d bytes over {. ' \\\\ - space \\\\n a}" % ((3, 2) if tier == "quick" else (4, 3)),
                    "html": "7 block templates, text bytes over {< > & a space \\\\n}, total text length <= %d, full and short" % (4 if tier == "quick" else 5),
-                   "style": "all 64 (current, new) pairs", "sections": "c1 c2 c3 c4 h2 g1"},
-        "jobs": {k: len([j for j in jobs if j["kind"] == k]) for k in ("escape", "style", "html", "sections")},
+                   "style": "all 64 (current, new) pairs", "sections": "c1 c2 c3 c4 h2 g1 c7 c8 c9",
+                   "documents": "markdown, html and manpage of %s: every command level has exactly one section, each section mentions the visible named items and commands of its level, hidden items are mentioned nowhere; text identical to the native build's" % " ".join(DOC_GRAMMARS)},
+        "jobs": {k: len([j for j in jobs if j["kind"] == k]) for k in ("escape", "style", "html", "sections", "doc", "gendoc")},
+        "traces_validated_against_impl": sum(r.get("validated_agree", 0) for r in results),
         "functions_encoded": sorted(fw.merge_counts(results, "fn_hits")),
         "models_used": fw.merge_counts(results, "models_used"),
         "repo_src_hash": build.get("repo_hash"),
@@ -494,6 +802,6 @@ def finish(results, jobs, build, out, tier, seed, wall):
         "provenance in the roff kernel is exact because inserted bytes are concrete and user bytes stay symbolic on every path",
         "user text may only be pushed with Special / SpecialNoNewline / Spaces (that is what Roff::plaintext / control do); a Spaces fragment always follows the literal argument separator (Roff::control); bpaf's own fragments are the literals used in roff.rs",
         "HTML: user bytes are rendered as text; the tag structure is read from the concrete part of the output",
-        "markdown output, whole-document assembly and the item lists per section are not part of this check",
+        "whole documents are rendered for fixed corpus definitions (no symbolic input: the definition is the only input); the per-section obligations read names, not help texts or metavariables; markdown cosmetics are not judged",
     ]
     return {"tier": tier, "seed": seed, "level": "model_checking", "coverage": cov, "assumptions": assumptions}
